@@ -14,6 +14,8 @@ PROPERTY = "C01"
 LEVEL = "model_checking"
 
 INIT = [("a", (2,), 0, False), ("b", (2, 1), 4, False)]
+# second world: a genuinely 2-D leaf (so that transposes are F-ordered) and a 0-d leaf equal to 2.0
+INIT_M = [("m", (2, 2), 2, False), ("p", (), 0, False, ("val", 2.0))]
 CORE = dict(ops2=("add", "sub", "mul"), ops1=("neg", "sum0"), views=("rev",), consts=("A2", "s2"))
 FULL = dict(
     ops2=("add", "sub", "mul", "div", "matmul", "max", "cat", "where"),
@@ -21,8 +23,15 @@ FULL = dict(
     views=("rev", "T", "flat", "na", "i0"),
     consts=("A2", "s2"),
 )
-ALPH = {"core": CORE, "full": FULL}
-BOUNDS = {"quick": [("full", 2), ("core", 3)], "thorough": [("full", 3), ("core", 4)]}
+MAT = dict(
+    ops2=("add", "mul", "pow", "matmul", "max"),
+    ops1=("sq2", "exp", "maxall", "minall", "max0", "sum0", "mean_1"),
+    views=("T", "flat", "rev", "i0", "c1"),
+    consts=("s2",),
+)
+ALPH = {"core": CORE, "full": FULL, "mat": MAT}
+INITS = {"core": INIT, "full": INIT, "mat": INIT_M}
+BOUNDS = {"quick": [("full", 2), ("core", 3), ("mat", 2)], "thorough": [("full", 3), ("core", 4), ("mat", 3)]}
 MAX_ELEMS = 8
 
 
@@ -36,6 +45,8 @@ def enabled(m, cfg, out):
                 sts.append(("view", out, s, v))
         for o in cfg["ops1"]:
             if OPS1[o][3](shp):
+                if o in ("maxall", "minall", "max0") and np.unique(m.a[s].real).size != m.a[s].size:
+                    continue  # ties: outside the differentiable domain
                 sts.append(("op1", out, s, o))
     operands = [("t", n) for n in live] + [("c", c) for c in cfg["consts"]]
     for o in cfg["ops2"]:
@@ -53,6 +64,8 @@ def enabled(m, cfg, out):
                         continue
                 if o == "div" and np.any(np.abs(yv) < 0.2):
                     continue
+                if o == "pow" and (np.any(np.real(xv) <= 0.05) or np.any(np.abs(yv) > 4)):
+                    continue  # d/dy x**y needs x > 0
                 try:
                     r = f(xv, yv)
                 except (ValueError, TypeError):
@@ -64,6 +77,7 @@ def enabled(m, cfg, out):
 
 
 def grad_check(init, h, seed, impl):
+    INIT = init
     if not h:
         return None
     last = h[-1][1]
@@ -89,6 +103,8 @@ def grad_check(init, h, seed, impl):
 
 def _dfs(aname, prefix, depth, acc, seed):
     cfg = ALPH[aname]
+    INIT = INITS[aname]
+    leaves = [i[0] for i in INIT]
     stack = [list(prefix)]
     while stack:
         h = stack.pop()
@@ -117,7 +133,7 @@ def _dfs(aname, prefix, depth, acc, seed):
                 for u in ([st[2]] if st[0] != "op2" else [v[1] for v in (st[2], st[3]) if v[0] == "t"]):
                     uses[u] = uses.get(u, 0) + 1
             bc = any(m.shape(st[1]) != m.shape(u) for st in h if st[0] == "op2" for u in [v[1] for v in (st[2], st[3]) if v[0] == "t"])
-            if (bc or any(c >= 2 for c in uses.values())) and m.reaches("a", last) | m.reaches("b", last):
+            if (bc or any(c >= 2 for c in uses.values())) and any(m.reaches(l, last) for l in leaves):
                 acc.nontrivial.add(base.stable_hash(h))
         if len(acc.samples) < 2 and len(h) == depth and h:
             acc.samples.append("; ".join(render(s) for s in h) + "; %s.backward()" % h[-1][1])
@@ -139,7 +155,7 @@ def run_task(task):
     return acc
 
 
-def _prefixes(cfg, k, seed):
+def _prefixes(cfg, k, seed, INIT=INIT):
     out = [[]]
     for _ in range(k):
         nxt = []
@@ -156,11 +172,11 @@ def plan(tier, seed):
     tasks = []
     for aname, depth in BOUNDS[tier]:
         k = 1 if depth <= 2 else 2
-        for p in _prefixes(ALPH[aname], k, seed):
+        for p in _prefixes(ALPH[aname], k, seed, INITS[aname]):
             tasks.append((aname, p, depth, seed))
         # programs shorter than k statements are prefixes of tasks; check them once here
         for kk in range(k):
-            for p in _prefixes(ALPH[aname], kk, seed):
+            for p in _prefixes(ALPH[aname], kk, seed, INITS[aname]):
                 tasks.append((aname, p, kk, seed))
     return dict(
         tasks=tasks,
@@ -175,7 +191,7 @@ def plan(tier, seed):
     )
 
 
-def _fails(h, seed):
+def _fails(h, seed, INIT=INIT):
     r = explore.Run(INIT, h, seed, oracle=explore.c04_check_approx)
     if r.failure is not None:
         f = r.failure
@@ -188,7 +204,7 @@ def _fails(h, seed):
 
 def replay(case):
     h = [tuplify(s) for s in case["history"]]
-    f = _fails(h, case.get("seed", 0))
+    f = _fails(h, case.get("seed", 0), INITS[case.get("alphabet", "core")])
     return [dict(failure=f)] if f is not None else []
 
 
@@ -197,7 +213,13 @@ def finalize(v):
 
     case = v["case"]
     seed = case.get("seed", 0)
+    INIT = INITS[case.get("alphabet", "core")]
     h = [tuplify(s) for s in case["history"]]
+    g_fails = globals()["_fails"]
+
+    def _fails(hh, sd):
+        return g_fails(hh, sd, INIT)
+
     f0 = _fails(h, seed)
     if f0 is None:
         return None
@@ -213,7 +235,7 @@ def finalize(v):
     f = _fails(hm, seed)
     tail = "%s.backward()\n# %s: %s %s\n" % (hm[-1][1], f[2], f[3], f[4])
     return dict(
-        case=dict(init=INIT, history=hm, seed=seed),
+        case=dict(init=INIT, history=hm, seed=seed, alphabet=case.get("alphabet", "core")),
         failure=dict(step=f[0], kind=f[2], where=f[3], detail=f[4]),
         script=script(INIT, hm, seed, tail),
         signature=C04.signature(hm, f),
